@@ -9,7 +9,7 @@ from . import ast as A
 
 REPO = os.environ.get("VV_REPO", "/repo")
 
-UNI_INJECT = [" ", " ", " ", "​", "́", "‮", "😀", "é", "日本", "İ", "ǆ", " ", "﻿",
+UNI_INJECT = ["\u00a0", "\u2003", "\u3000", "​", "́", "‮", "😀", "é", "日本", "İ", "ǆ", " ", "﻿",
               "\t", "\r\n", "Ω", "ß"]
 TOKENS = ["(", ")", "[", "]", "{", "}", ".", ",", ":", ";", "!", "?", "??", "||", "&&", "|", "=", "==", "!=",
           "+", "-", "*", "/", "%", "->", "|=", "<", ">", "<=", ">=", "\"", "'", "\\", "\n", " ", "#", "_",
